@@ -22,7 +22,10 @@ RULE = ("history: Hypothesis job lists (2..6 jobs; a job = corpus of 1..3 senten
         "after the other in ONE interpreter in the drawn order and in a drawn permutation; the outputs (files and stdout) of a job must be identical in all "
         "three runs (files that represent sets compared as line multisets). concat: for corpora A, B: output(A+B) = output(A) ++ output(B) for conversions and "
         "transitions, = sum for treebank and Markov grammars, lexicons and statistics. hashseed: the same command under PYTHONHASHSEED 0, 1, 123 gives the same "
-        "output. Non-trivial = >= 3 jobs touching >= 2 formats, or a job with a terminal file preceded by a job with another one.")
+        "output. interleave (API, in-process): 2..3 reader->transformation->writer/extraction pipelines run sequentially and interleaved tree by tree along a drawn "
+        "schedule must give the same per-pipeline outputs. concat_api: extraction, Markov binarization, writers and statistics over A+B = sum / concatenation. "
+        "Non-trivial (history) = >= 3 jobs touching >= 2 formats, or a job with a terminal file preceded by a job with another one; every interleave / concat case "
+        "counts as non-trivial; distinct by digest.")
 ASSUMPTIONS = ["jobs are executed through vlib/jobrunner.py, which runs the unmodified treetools script with runpy in a process that has imported nothing else",
                "grammar, lexicon and LoPar auxiliary files are compared as multisets of lines; everything else byte for byte",
                "only sentence-local transformations are drawn; sentence ids are distinct across A and B"]
